@@ -131,6 +131,8 @@ Inductive case :=
          (in_indices : option (Z * Z)) (evo fluent : res Z)
 | KWellArr (R C : Z) (wells : list (list string)) (keys : list (string * (Z * Z)))
 | KSel (rows cols : Z) (sel : list bool) (out : string)
+| KSelOne (rows cols : Z) (i : Z) (out : string)      (* only the i-th well (column-major) selected *)
+| KSelAll (rows cols : Z) (out : string)              (* every well selected *)
 | KSelArr (rows cols : Z) (wells : arr string) (out : option (list bool))
 | KHex (n : Z) (out : string)
 | KXf (c : xf_call) (out : res (arr (option string)))
@@ -173,6 +175,11 @@ Definition check (c : case) : bool :=
       && (length keys =? length (concat wells))%nat
       && forallb (fun kv => opt_rc_match (make_well_index (nat_ R) (nat_ C) (fst kv)) (Some (snd kv))) keys
   | KSel rows cols sel out => String.eqb (evo_get_selection (nat_ rows) (nat_ cols) sel) out
+  | KSelOne rows cols i out =>
+      String.eqb (evo_get_selection (nat_ rows) (nat_ cols)
+                    (map (fun j => (Z.of_nat j =? i)%Z) (seq 0 (nat_ rows * nat_ cols)))) out
+  | KSelAll rows cols out =>
+      String.eqb (evo_get_selection (nat_ rows) (nat_ cols) (repeat true (nat_ rows * nat_ cols))) out
   | KSelArr rows cols wells out =>
       option_eqb (list_eqb Bool.eqb) (selection_array (nat_ rows) (nat_ cols) (flattenC wells)) out
   | KHex n out => String.eqb (to_hex (Z.to_N n)) out
